@@ -23,8 +23,16 @@ import (
 //                     literal, append growth, func literal, variadic slice)    class percall
 //   I:<T.f>@<class>   the field f inside an object of that class               class <class>
 //   TREE              the Quadtree struct, its nodes and everything they hold  class tree
-//   CALLER            buffers / functions supplied by the caller of an
-//                     exported method (per goroutine by the documented contract) class caller
+//   CALLER-BUF        the RESULT BUFFER supplied by the caller of a query method (the
+//                     parameter `buf []orb.Pointer` of KNearest / KNearestMatching /
+//                     InBound / InBoundMatching: "an optional buffer parameter is
+//                     provided to allow for the reuse of result slice memory" — per
+//                     goroutine by the documented contract, the library may write it) class caller-buf
+//   CALLER-ARG        every other reference the caller of an exported function hands
+//                     in: the filter function, the pointer given to Add / Remove, the
+//                     variadic `maxDistance ...float64` (the CALLER'S slice when the call
+//                     is written `lims...`), receivers of non-tree types.  Nothing says
+//                     these are per goroutine: they may be read, never written       class caller-arg
 //   GLOBAL            package-level variables and what they hold               class global
 //   UNKNOWN           results of code outside the package                      class unknown
 //
@@ -158,22 +166,34 @@ func (m *orbImporter) check(path string, pk *pkgFiles, info *types.Info) (*types
 // abstract objects
 
 const (
-	oTree    = "TREE"
-	oCaller  = "CALLER"
-	oGlobal  = "GLOBAL"
-	oUnknown = "UNKNOWN"
+	oTree      = "TREE"
+	oCallerBuf = "CALLER-BUF"
+	oCallerArg = "CALLER-ARG"
+	oGlobal    = "GLOBAL"
+	oUnknown   = "UNKNOWN"
 )
 
 type oset map[string]bool
 
-func isBlob(o string) bool { return o == oTree || o == oCaller || o == oGlobal || o == oUnknown }
+func isBlob(o string) bool {
+	return o == oTree || o == oCallerBuf || o == oCallerArg || o == oGlobal || o == oUnknown
+}
+
+// the result-buffer parameters of the documented per-goroutine contract: function -> parameter name
+// (the parameter must also have the type []orb.Pointer; everything else a caller hands in is CALLER-ARG)
+var resultBufParams = map[string]string{
+	"Quadtree.KNearest": "buf", "Quadtree.KNearestMatching": "buf",
+	"Quadtree.InBound": "buf", "Quadtree.InBoundMatching": "buf",
+}
 
 func classOf(o string) string {
 	switch {
 	case o == oTree:
 		return "tree"
-	case o == oCaller:
-		return "caller"
+	case o == oCallerBuf:
+		return "caller-buf"
+	case o == oCallerArg:
+		return "caller-arg"
 	case o == oGlobal:
 		return "global"
 	case o == oUnknown:
@@ -249,6 +269,8 @@ type pta struct {
 	cells   map[string]oset
 	changed bool
 	collect bool
+
+	resultBufs []string // (function, parameter) classified CALLER-BUF at the entry points
 
 	decls   []*ast.FuncDecl
 	fnOf    map[*types.Func]*ast.FuncDecl
@@ -1909,7 +1931,7 @@ func (a *pta) seedEntries() {
 				if !refLike(rt) {
 					continue
 				}
-				s := single(oCaller)
+				s := single(oCallerArg)
 				if a.isTreeType(deref(rt)) {
 					s = single(oTree)
 				}
@@ -1930,14 +1952,21 @@ func (a *pta) seedEntries() {
 					continue
 				}
 				if refLike(o.Type()) {
-					a.add(a.varID(o), single(oCaller))
+					blob := oCallerArg
+					if resultBufParams[name] == n.Name && types.TypeString(o.Type(), func(p *types.Package) string { return p.Name() }) == "[]orb.Pointer" {
+						blob = oCallerBuf
+						if a.collect {
+							a.resultBufs = append(a.resultBufs, fmt.Sprintf("(%q, %q)", name, n.Name))
+						}
+					}
+					a.add(a.varID(o), single(blob))
 					if a.collect {
-						a.recordBinding(name, n.Name, "param", o.Type(), "(caller)", "", "entry", []string{"caller"})
+						a.recordBinding(name, n.Name, "param", o.Type(), "(caller)", "", "entry", []string{classOf(blob)})
 					}
 				} else if a.collect && a.addrOfV[a.varID(o)] {
 					a.recordBinding(name, n.Name, "param", o.Type(), "(caller)", "", "by-value-copy", []string{})
 				} else if hasRef(o.Type()) {
-					a.taint(o.Type(), single(oCaller), 0)
+					a.taint(o.Type(), single(oCallerArg), 0)
 				}
 			}
 		}
@@ -1963,7 +1992,11 @@ func genWrites() *leanFile {
 	l.p("     local    a variable of the running function")
 	l.p("     percall  memory allocated during the call (make, new, composite literal, append growth)")
 	l.p("              or a local variable of a caller on the same query path (reached through a pointer)")
-	l.p("     caller   a buffer supplied by the caller of the exported method (per goroutine by contract)")
+	l.p("     caller-buf  the result buffer `buf []orb.Pointer` supplied by the caller of a query method (per")
+	l.p("              goroutine by the documented contract; the library may write it)")
+	l.p("     caller-arg  any other reference handed in by the caller of an exported function: the filter, the")
+	l.p("              pointer given to Add / Remove, the variadic limits slice (`lims...` passes the CALLER'S")
+	l.p("              slice), receivers of non-tree types — nothing says these are per goroutine")
 	l.p("     tree     the Quadtree struct, its nodes, anything loaded from them; any *node / *Quadtree")
 	l.p("     global   package-level state;   unknown  anything that comes from outside the package")
 	l.p("   An EMPTY class list means the analysis found nothing the destination could designate. -/")
@@ -2312,6 +2345,49 @@ func genWrites() *leanFile {
 	l.p("]")
 	l.p("")
 	l.p("def missingFuncs : List String := %s", leanList(missing))
+	l.p("")
+	sort.Strings(a.resultBufs)
+	l.p("/-- the parameters classified `caller-buf`: (exported function, parameter), of type []orb.Pointer -/")
+	l.p("def resultBuffers : List (String × String) := [%s]", strings.Join(a.resultBufs, ", "))
+	l.p("")
+	// comparisons of two interface values in the WHOLE package (not only on the query path): `==` / `!=`
+	// between operands of interface type, neither of them the literal nil, and switch statements over a tag
+	// of interface type.  Such a comparison panics at run time when both operands hold the same dynamic
+	// type and that type is not comparable (a struct with a slice / map / func inside, a slice, a map).
+	var ifaceCmp []string
+	if a.tpkg != nil {
+		isIface := func(e ast.Expr) bool {
+			tv, ok := a.info.Types[e]
+			if !ok || tv.IsNil() || tv.Type == nil {
+				return false
+			}
+			_, isI := tv.Type.Underlying().(*types.Interface)
+			return isI
+		}
+		for _, d := range a.decls {
+			if d.Body == nil {
+				continue
+			}
+			fn := a.fnName[d]
+			ast.Inspect(d.Body, func(n ast.Node) bool {
+				switch e := n.(type) {
+				case *ast.BinaryExpr:
+					if (e.Op == token.EQL || e.Op == token.NEQ) && isIface(e.X) && isIface(e.Y) {
+						ifaceCmp = append(ifaceCmp, fmt.Sprintf("(%q, %q)", fn, a.show(e)))
+					}
+				case *ast.SwitchStmt:
+					if e.Tag != nil && isIface(e.Tag) {
+						ifaceCmp = append(ifaceCmp, fmt.Sprintf("(%q, %q)", fn, "switch "+a.show(e.Tag)))
+					}
+				}
+				return true
+			})
+		}
+	}
+	l.p("/-- every comparison of two interface values (neither the literal nil) in package quadtree, the whole")
+	l.p("    package: (function, expression).  Comparing two orb.Pointer values panics when they hold the same")
+	l.p("    uncomparable dynamic type (a value struct with a slice or map inside, e.g. geojson.Feature). -/")
+	l.p("def interfaceComparisons : List (String × String) := [%s]", strings.Join(ifaceCmp, ", "))
 	l.p("end Generated.Writes")
 	return l
 }
